@@ -15,6 +15,7 @@ import (
 	"bytes"
 	"compress/flate"
 	"compress/gzip"
+	"compress/zlib"
 	"encoding/hex"
 	"encoding/json"
 	"fmt"
@@ -52,8 +53,12 @@ type Msg struct {
 	Seed uint64 `json:"s,omitempty"`
 	Kind string `json:"k,omitempty"` // "" random bytes, "t" text, "0" zeros
 	Lvl  int    `json:"l,omitempty"` // compression level selector of the generator's encoder
-	P    string `json:"p,omitempty"`
-	W    string `json:"w,omitempty"`
+	// Var selects a legal variant of the container. gzip: "2"/"3" members (RFC 1952 concatenation, each
+	// member at its own level), "e" an additional empty last member, "h" FEXTRA/FNAME/FCOMMENT fields in
+	// the first member, combinable ("2eh"). deflate: "zlib" = RFC 1950 wrapper, what grpc-core sends.
+	Var string `json:"var,omitempty"`
+	P   string `json:"p,omitempty"`
+	W   string `json:"w,omitempty"`
 }
 
 // Dir is what travels in one direction of the stream.
@@ -83,6 +88,20 @@ type Case struct {
 	// HOrd > 0 adds grpc-accept-encoding and grpc-timeout / user-agent fields and permutes the
 	// regular header fields (HTTP/2 does not order them): permutation number HOrd-1.
 	HOrd int `json:"hord,omitempty"`
+	// SCT, if set, is the content-type of the RESPONSE when it differs from the request's ("-" = none):
+	// the error page of a gateway answering a gRPC request.
+	SCT string `json:"sct,omitempty"`
+}
+
+// ctFor is the content-type announced in one direction.
+func ctFor(c Case, dir string) string {
+	if dir == "s" && c.SCT != "" {
+		if c.SCT == "-" {
+			return ""
+		}
+		return c.SCT
+	}
+	return c.CT
 }
 
 func isGRPC(ct string) bool {
@@ -111,15 +130,38 @@ func normEnd(e string) string {
 
 var levels = []int{flate.DefaultCompression, flate.BestSpeed, flate.NoCompression, flate.HuffmanOnly}
 
-func compress(enc string, lvl int, p []byte) []byte {
+func level(lvl int) int { return levels[((lvl%len(levels))+len(levels))%len(levels)] }
+
+func compress(enc string, lvl int, variant string, p []byte) []byte {
 	var buf bytes.Buffer
-	l := levels[((lvl%len(levels))+len(levels))%len(levels)]
+	l := level(lvl)
 	switch enc {
 	case "gzip":
-		w, _ := gzip.NewWriterLevel(&buf, l)
-		w.Write(p)
-		w.Close()
+		members := 1
+		if strings.Contains(variant, "2") {
+			members = 2
+		} else if strings.Contains(variant, "3") {
+			members = 3
+		}
+		for i := 0; i < members; i++ {
+			w, _ := gzip.NewWriterLevel(&buf, level(lvl+i))
+			if i == 0 && strings.Contains(variant, "h") {
+				w.Name, w.Comment, w.Extra = "part-0.bin", "verif", []byte{'v', 'f', 2, 0, 1, 2}
+			}
+			w.Write(p[len(p)*i/members : len(p)*(i+1)/members])
+			w.Close()
+		}
+		if strings.Contains(variant, "e") {
+			w, _ := gzip.NewWriterLevel(&buf, l)
+			w.Close()
+		}
 	case "deflate":
+		if variant == "zlib" {
+			w, _ := zlib.NewWriterLevel(&buf, l)
+			w.Write(p)
+			w.Close()
+			break
+		}
 		w, _ := flate.NewWriter(&buf, l)
 		w.Write(p)
 		w.Close()
@@ -148,13 +190,26 @@ func decode(enc string, w []byte) ([]byte, error) {
 		if err != nil {
 			return nil, err
 		}
-		zr.Multistream(false)
+		p, err := io.ReadAll(zr) // all members: RFC 1952 allows a concatenation
+		if err != nil {
+			return nil, err
+		}
+		if br.Len() != 0 {
+			return nil, fmt.Errorf("%d bytes after the gzip stream", br.Len())
+		}
+		return p, nil
+	case "zlib":
+		br := bytes.NewReader(w)
+		zr, err := zlib.NewReader(br)
+		if err != nil {
+			return nil, err
+		}
 		p, err := io.ReadAll(zr)
 		if err != nil {
 			return nil, err
 		}
 		if br.Len() != 0 {
-			return nil, fmt.Errorf("%d bytes after the gzip member", br.Len())
+			return nil, fmt.Errorf("%d bytes after the zlib stream", br.Len())
 		}
 		return p, nil
 	case "deflate":
@@ -202,21 +257,23 @@ func parseLP(b []byte) (msgs []wireMsg, rest []byte) {
 // ---------------------------------------------------------------- building the stream
 
 type wmsg struct {
+	zlib  bool // deflate payload in the RFC 1950 wrapper
 	z     bool
 	plain []byte
 	wire  []byte
 }
 
 type built struct {
-	enc    string
-	end    string
-	stream []byte
-	want   []wmsg
-	offs   []int  // start offset of every complete message
-	tail   int    // bytes of an incomplete trailing message (raw mode with end absent, or aborted stream)
-	abort  string // "", "rst", "end"
-	cuts   []int  // sanitised
-	frames [][]byte
+	enc     string
+	end     string
+	stream  []byte
+	want    []wmsg
+	offs    []int  // start offset of every complete message
+	tail    int    // bytes of an incomplete trailing message (raw mode with end absent, or aborted stream)
+	abort   string // "", "rst", "end"
+	hasZlib bool   // a deflate message in the zlib wrapper is on the stream
+	cuts    []int  // sanitised
+	frames  [][]byte
 }
 
 func (m Msg) plain() []byte {
@@ -314,7 +371,9 @@ func buildUncached(d Dir) *built {
 				}
 			case m.Z && compresses(b.enc):
 				w.plain = m.plain()
-				w.wire = compress(b.enc, m.Lvl, w.plain)
+				w.wire = compress(b.enc, m.Lvl, m.Var, w.plain)
+				w.zlib = b.enc == "deflate" && m.Var == "zlib"
+				b.hasZlib = b.hasZlib || w.zlib
 			default:
 				w.plain = m.plain()
 				w.wire = w.plain
@@ -495,8 +554,8 @@ func headersFor(c Case, dir string, d *built) []hpack.HeaderField {
 	} else {
 		h = append(h, hpack.HeaderField{Name: ":status", Value: "200"})
 	}
-	if c.CT != "" {
-		reg = append(reg, hpack.HeaderField{Name: "content-type", Value: c.CT})
+	if ct := ctFor(c, dir); ct != "" {
+		reg = append(reg, hpack.HeaderField{Name: "content-type", Value: ct})
 	}
 	if d.enc != "" {
 		reg = append(reg, hpack.HeaderField{Name: "grpc-encoding", Value: d.enc})
@@ -614,8 +673,11 @@ func newFactory(cur **streamRun) h2.StreamProcessorFactory {
 }
 
 func openStream(f h2.StreamProcessorFactory, cur **streamRun, c Case) *streamRun {
-	if isGRPC(c.CT) {
-		c.C.Plain, c.S.Plain = false, false // a gRPC stream is always length-prefixed
+	if isGRPC(ctFor(c, "c")) {
+		c.C.Plain = false // gRPC is always length-prefixed
+	}
+	if isGRPC(ctFor(c, "s")) {
+		c.S.Plain = false
 	}
 	s := &streamRun{c: c, sinkC: &sinkRec{}, sinkS: &sinkRec{}}
 	*cur = s
@@ -754,14 +816,26 @@ func judge(c Case, dir string, b *built, ops []op, err error, sink *sinkRec, pro
 	g += "-end-" + b.end
 	where := map[string]string{"c": "client-to-server", "s": "server-to-client"}[dir]
 
+	if b.hasZlib {
+		g = "deflate-zlib-wrapped-message"
+	}
 	if err != nil {
+		// the runner stops feeding a direction whose adapter failed: everything else would be a consequence
 		v.Addf("C11/error/"+g+"/adapter-returned-error", "%s: a well-formed stream made the adapter fail: %v", where, err)
+		return v
 	}
 
-	if !isGRPC(c.CT) {
+	if ct := ctFor(c, dir); !isGRPC(ct) {
 		// untouched, one for one; nothing is shown to the gRPC processor
-		if len(proc.ev) > 0 {
-			v.Addf("C11/non-grpc/any/processor-shown-non-grpc-traffic", "%s content-type %q: the gRPC processor was shown%s", where, c.CT, summary(proc.ev))
+		shape := "any"
+		if isGRPC(c.CT) {
+			shape = "response-of-grpc-request-is-not-grpc"
+		}
+		c.CT = ct
+		// (a non-gRPC response to a gRPC request: whether the RPC's processor may see its header blocks
+		// is not for the statement to say - only the destination is judged there)
+		if len(proc.ev) > 0 && shape == "any" {
+			v.Addf("C11/non-grpc/"+shape+"/processor-shown-non-grpc-traffic", "%s content-type %q: the gRPC processor was shown%s", where, c.CT, summary(proc.ev))
 		}
 		ok := len(sink.ev) == len(ops)
 		for i := 0; ok && i < len(ops); i++ {
@@ -769,7 +843,7 @@ func judge(c Case, dir string, b *built, ops []op, err error, sink *sinkRec, pro
 			ok = e.kind == ops[i].kind && e.end == ops[i].end && bytes.Equal(e.data, ops[i].data) && sameFields(e.hdr, ops[i].hdr)
 		}
 		if !ok {
-			v.Addf("C11/non-grpc/any/frames-altered", "%s content-type %q: %d frames went in, the sink got%s", where, c.CT, len(ops), summary(sink.ev))
+			v.Addf("C11/non-grpc/"+shape+"/frames-altered", "%s content-type %q: %d frames went in, the sink got%s", where, c.CT, len(ops), summary(sink.ev))
 		}
 		return v
 	}
@@ -909,7 +983,11 @@ func judge(c Case, dir string, b *built, ops []op, err error, sink *sinkRec, pro
 				v.Addf("C11/passthrough/"+g+"/message-bytes-differ", "%s: message %d (flag %d) reached the sink altered: %s", where, i+1, wf, kit.Diff(w.wire, gm.payload))
 			}
 		default:
-			p, derr := decode(b.enc, gm.payload)
+			container := b.enc
+			if w.zlib {
+				container = "zlib"
+			}
+			p, derr := decode(container, gm.payload)
 			if derr != nil {
 				firstBad = "x"
 				if b.enc == "snappy" {
@@ -918,7 +996,7 @@ func judge(c Case, dir string, b *built, ops []op, err error, sink *sinkRec, pro
 						break
 					}
 				}
-				v.Addf("C11/passthrough/"+g+"/compressed-payload-unreadable-at-sink", "%s: message %d reached the sink flagged compressed but is not a %s payload: %v", where, i+1, b.enc, derr)
+				v.Addf("C11/passthrough/"+g+"/compressed-payload-unreadable-at-sink", "%s: message %d reached the sink flagged compressed but is not a %s payload: %v", where, i+1, container, derr)
 			} else if !bytes.Equal(p, w.plain) {
 				firstBad = "x"
 				v.Addf("C11/passthrough/"+g+"/decompressed-bytes-differ", "%s: message %d decompresses to something else at the sink: %s", where, i+1, kit.Diff(w.plain, p))
@@ -963,7 +1041,10 @@ func judge(c Case, dir string, b *built, ops []op, err error, sink *sinkRec, pro
 
 func dirClasses(c Case, name string, d Dir, add func(string)) (nontrivial bool) {
 	b := build(d)
-	if !isGRPC(c.CT) {
+	if !isGRPC(ctFor(c, name)) {
+		if isGRPC(c.CT) {
+			add("response-of-grpc-request-is-not-grpc")
+		}
 		return false
 	}
 	add("end-" + b.end)
@@ -981,7 +1062,16 @@ func dirClasses(c Case, name string, d Dir, add func(string)) (nontrivial bool) 
 	if len(b.want) > 1 {
 		add("multi-message")
 	}
-	for _, w := range b.want {
+	for i, w := range b.want {
+		if w.zlib {
+			add("deflate-zlib-wrapped")
+		}
+		if w.z && b.enc == "gzip" && i < len(d.Msgs) && d.Msgs[i].Var != "" && d.Raw == "" {
+			add("gzip-variant")
+			if strings.ContainsAny(d.Msgs[i].Var, "23e") {
+				add("gzip-multi-member")
+			}
+		}
 		if w.z && compresses(b.enc) {
 			add("compressed-" + b.enc)
 			add("compressed")
@@ -1120,6 +1210,8 @@ func genMsg(t *rapid.T, i int) Msg {
 	m.Seed = uint64(rapid.IntRange(1, 1000).Draw(t, "seed"))
 	m.Kind = rapid.SampledFrom([]string{"", "t", "t", "0"}).Draw(t, "kind")
 	m.Lvl = rapid.IntRange(0, 3).Draw(t, "lvl")
+	// container variants; each only means something under its encoding
+	m.Var = rapid.SampledFrom([]string{"", "", "", "", "", "", "2", "3", "2e", "e", "h", "3eh", "zlib", "zlib", "zlib"}).Draw(t, "var")
 	return m
 }
 
@@ -1201,6 +1293,10 @@ func genCase(t *rapid.T) Case {
 	}
 	c.C = genDir(t, "c")
 	c.S = genDir(t, "s")
+	if isGRPC(c.CT) && rapid.IntRange(0, 7).Draw(t, "foreign_response") == 0 {
+		c.SCT = rapid.SampledFrom([]string{"text/html", "application/json", "text/plain", "-"}).Draw(t, "sct")
+		c.S.Plain = rapid.Bool().Draw(t, "sct_plain")
+	}
 	switch rapid.IntRange(0, 3).Draw(t, "order") {
 	case 0: // one direction after the other
 	case 1:
@@ -1220,7 +1316,7 @@ func genCase(t *rapid.T) Case {
 	return c
 }
 
-const ruleGen = "rapid draws per direction an encoding (absent/identity/gzip/deflate/snappy), 0..6 messages (sizes 0..70000, edge-biased; compressed flag; random/text/zero payloads; compressed by compress/gzip, compress/flate at 4 levels, snappy framing writer), a cut set of the length-prefixed byte stream (none, message boundaries, inside 5-byte prefixes, fixed frame size, random offsets, every byte), optional empty DATA frames, END_STREAM on the last DATA frame / a separate empty frame / trailers / absent; content-type application/grpc (mostly), +proto/+json, or non-gRPC; in 3 of 4 cases extra regular header fields (grpc-accept-encoding, grpc-timeout, user-agent) and a drawn permutation of all regular fields (grpc-encoding before or after content-type); both directions interleaved, sequential or on two goroutines; processors on both or one direction. Non-trivial = gRPC stream with a cut inside a 5-byte prefix or inside a payload, or a compressed message, or a separate END_STREAM frame."
+const ruleGen = "rapid draws per direction an encoding (absent/identity/gzip/deflate/snappy), 0..6 messages (sizes 0..70000, edge-biased; compressed flag; random/text/zero payloads; compressed by compress/gzip (1..3 members, optional empty last member, optional FEXTRA/FNAME/FCOMMENT), compress/flate at 4 levels or compress/zlib (the RFC 1950 wrapper grpc-core uses for deflate), snappy framing writer), a cut set of the length-prefixed byte stream (none, message boundaries, inside 5-byte prefixes, fixed frame size, random offsets, every byte), optional empty DATA frames, END_STREAM on the last DATA frame / a separate empty frame / trailers / absent; content-type application/grpc (mostly), +proto/+json, or non-gRPC; 1 in 8 gRPC requests is answered by a non-gRPC response (text/html etc., plain or framing-like body); in 3 of 4 cases extra regular header fields (grpc-accept-encoding, grpc-timeout, user-agent) and a drawn permutation of all regular fields (grpc-encoding before or after content-type); both directions interleaved, sequential or on two goroutines; processors on both or one direction. Non-trivial = gRPC stream with a cut inside a 5-byte prefix or inside a payload, or a compressed message, or a separate END_STREAM frame."
 
 var propReframe = &kit.Prop[Case]{
 	ID: "C11", Name: "reframe", Rule: ruleGen,
@@ -1232,6 +1328,7 @@ var propReframe = &kit.Prop[Case]{
 		"non-grpc": 0.05, "zero-length-message": 0.1, "encodings-differ-by-direction": 0.2,
 		"interleaved-directions":                                    0.15,
 		"grpc-encoding-before-content-type-with-compressed-message": 0.1,
+		"gzip-multi-member":                                         0.03, "deflate-zlib-wrapped": 0.02, "response-of-grpc-request-is-not-grpc": 0.04,
 	},
 }
 
